@@ -92,7 +92,8 @@ def produce(case: dict, workdir: str):
             kw = {}
             if case.get("ctor_header_encryption"):
                 kw["header_encryption"] = True
-            z = py7zr.SevenZipFile(tgt, "w", filters=filters, password=pw, **kw)
+            # open mode: 'w', or the documented exclusive-create mode 'x' (for a target given by name)
+            z = py7zr.SevenZipFile(tgt, case.get("mode", "w") if target == "path" else "w", filters=filters, password=pw, **kw)
             with z:
                 if case["header"] == "raw":
                     z.set_encoded_header_mode(False)
